@@ -591,14 +591,31 @@ func H15_String() {
 // H15_Reset: after Reset the outputter behaves like a new one.
 func H15_Reset() {
 	var c1, c2 []call
-	var e1, e2 []jtok
+	var e1 []jtok
 	symStrings = false
 	genValueM("a", 1, false, &c1, &e1)
-	genValueM("b", 1, false, &c2, &e2)
+	// the second document: a handful of fixed shapes (what matters is the state
+	// the abandoned first document left behind)
+	switch vrt.Choice("second", 6) {
+	case 0:
+		c2 = []call{{K: cInt, I: 7}}
+	case 1:
+		c2 = []call{{K: cStartObj}, {K: cEndObj}}
+	case 2:
+		c2 = []call{{K: cStartArr}, {K: cString, S: "x"}, {K: cBool, B: true}, {K: cEndArr}}
+	case 3:
+		c2 = []call{{K: cStartObj}, {K: cName, S: "k"}, {K: cStartArr}, {K: cEndArr}, {K: cName, S: "l"}, {K: cInt, I: 1}, {K: cEndObj}}
+	case 4:
+		c2 = []call{{K: cString, S: "s"}}
+	case 5:
+		c2 = []call{{K: cStartArr}, {K: cStartObj}, {K: cName, S: "a"}, {K: cF64, F: 1.5}, {K: cEndObj}, {K: cStartArr}, {K: cEndArr}, {K: cEndArr}}
+	}
 	symStrings = true
 	var used plenccodec.JSONOutput
-	play(&used, c1)
-	if vrt.Choice("done-first", 2) == 1 {
+	// the first document may be abandoned anywhere: after any prefix of its calls
+	cut := vrt.Choice("cut", len(c1)+1)
+	play(&used, c1[:cut])
+	if cut == len(c1) && vrt.Choice("done-first", 2) == 1 {
 		used.Done()
 	}
 	used.Reset()
